@@ -230,6 +230,8 @@ func (t *translator) leanType(ty types.Type, at ast.Node) string {
 			return "Go.Str"
 		case u.Kind() == types.Float64: // copy-only: see Go.F64 and the header of main.go
 			return "Go.F64"
+		case u.Kind() == types.Float32:
+			return "Go.F32"
 		}
 	case *types.Slice:
 		return "Array " + paren(t.leanType(u.Elem(), at))
@@ -296,6 +298,8 @@ func (t *translator) zero(ty types.Type, at ast.Node) string {
 			return "([] : Go.Str)"
 		case types.Float64:
 			return "Go.F64.zero"
+		case types.Float32:
+			return "Go.F32.zero"
 		}
 	case *types.Slice:
 		return "#[]"
